@@ -239,7 +239,10 @@ static void do_update(Run &r, const Op &op) {
 	case U_CHAIN: { new_chain = op.alt; ec::Config &a = r.cfg(new_chain); a.link(); for (nf = 0; nf < a.nfilters; ++nf) f[nf] = a.filters[nf]; f[nf].id = LZMA_VLI_UNKNOWN; f[nf].options = NULL;
 		ids_differ = new_chain != r.cur_chain; nlc = a.lz.lc; nlp = a.lz.lp; npb = a.lz.pb; if (!ids_differ) { lz = a.lz; lz.lc = nlc = r.lc; lz.lp = nlp = r.lp; lz.pb = npb = r.pb; f[nf - 1].options = &lz; } break; }
 	default: invalid = true; copy_cur();
-		switch (r.ek == EK_MT && op.inv >= 6 ? 0 : op.inv) {   // (threaded encoder: the late failure would surface in a worker later; not modelled)
+		// the late-failing chains are only offered where the chain is initialised at once (between the Blocks of the single-threaded .xz
+		// encoder).  Elsewhere liblzma does not look at BCJ options during an update: it accepts the call and stores the chain, and the
+		// *next* Block then fails with LZMA_OPTIONS_ERROR - a truthful answer to an invalid chain, which this history model does not follow
+		switch (op.inv >= 6 && !(r.ek == EK_STREAM && r.in_block() == 0 && !r.header_started) ? 0 : op.inv) {
 		case 0: lz.lc = 3; lz.lp = 2; break;
 		case 1: lz.pb = 5; break;
 		case 2: f[0].id = f[nf - 1].id; f[0].options = &lz; dl.type = LZMA_DELTA_TYPE_BYTE; dl.dist = 1; f[1].id = LZMA_FILTER_DELTA; f[1].options = &dl; f[2].id = LZMA_VLI_UNKNOWN; f[2].options = NULL; nf = 2; break; // last filter not last
@@ -261,9 +264,7 @@ static void do_update(Run &r, const Op &op) {
 	Expect ex;
 	// inv 6/7 (BCJ start offset not aligned) is only noticed where the chain is really initialised, i.e. between the Blocks of the
 	// single-threaded .xz encoder; elsewhere BCJ options are not re-read (same ID: ignored) or the ID differs (refused): either
-	const bool late_only = invalid && op.inv >= 6 && r.ek != EK_MT;
-	if (late_only && !(r.ek == EK_STREAM && r.in_block() == 0)) ex = EITHER;
-	else if (invalid) ex = MUST_REFUSE;
+	if (invalid) ex = MUST_REFUSE;
 	else if (r.is_xz()) {
 		if (r.in_block() == 0) ex = (!r.any_data || (immediate && (r.last_flush == OP_FULL || r.last_flush == OP_BARRIER))) ? MUST_ACCEPT : EITHER;   // between Blocks: whole chain
 		else if (r.ek == EK_MT) ex = EITHER;                                                          // threaded: nothing documented inside a Block
